@@ -88,6 +88,7 @@ type loopInfo struct {
 }
 
 type FuncGen struct {
+	paramAlias map[string]*ssa.Parameter // recorded parameter names that were renamed (see applyRecordedNames)
 	rng map[ssa.Value][2]*big.Int // static intervals of integer values (see rangeOf)
 	env   *Env
 	fn    *ssa.Function
@@ -889,6 +890,7 @@ func (g *FuncGen) setupCells() {
 			}
 		}
 	}
+	g.applyRecordedNames()
 	// loop modified sets
 	for _, l := range g.loops {
 		g.loopEffects(l)
@@ -1211,4 +1213,72 @@ func (g *FuncGen) setEdge(from, to *ssa.BasicBlock, cond string) {
 		name = g.def(fmt.Sprintf("edge_%d_%d", from.Index, to.Index), "Bool", or(old, cond))
 	}
 	g.edges[[2]int{from.Index, to.Index}] = name
+}
+
+// NamedLocals lists the named variables of a function (parameters first, then local variables in source order) as
+// "name|type" strings.  The list recorded on the unchanged tree (contracts/bindings.json) lets a contract keep
+// attaching after a pure rename of a parameter or local: an identifier the contract mentions that no longer exists is
+// matched by position and type.
+func NamedLocals(fn *ssa.Function) (params []string, locals []string, allocs []*ssa.Alloc) {
+	for _, p := range fn.Params {
+		params = append(params, p.Name()+"|"+p.Type().String())
+	}
+	for _, b := range fn.Blocks {
+		for _, in := range b.Instrs {
+			if a, ok := in.(*ssa.Alloc); ok && a.Comment != "" && a.Pos().IsValid() {
+				allocs = append(allocs, a)
+			}
+		}
+	}
+	sort.SliceStable(allocs, func(i, j int) bool { return allocs[i].Pos() < allocs[j].Pos() })
+	for _, a := range allocs {
+		locals = append(locals, a.Comment+"|"+deref(a.Type()).String())
+	}
+	return
+}
+
+func (g *FuncGen) applyRecordedNames() {
+	rec := g.env.Bindings[fnPkgPath(g.fn)+"|"+g.key]
+	if rec == nil {
+		return
+	}
+	params, locals, allocs := NamedLocals(g.fn)
+	split := func(s string) (string, string) {
+		i := strings.Index(s, "|")
+		return s[:i], s[i+1:]
+	}
+	current := map[string]bool{}
+	for _, s := range append(append([]string{}, params...), locals...) {
+		n, _ := split(s)
+		current[n] = true
+	}
+	g.paramAlias = map[string]*ssa.Parameter{}
+	if len(rec.Params) == len(params) {
+		for i := range params {
+			on, ot := split(rec.Params[i])
+			cn, ct := split(params[i])
+			if on != cn && ot == ct && !current[on] {
+				g.paramAlias[on] = g.fn.Params[i]
+				g.warnings = append(g.warnings, fmt.Sprintf("%s: parameter %s was renamed to %s (matched by position)", g.key, on, cn))
+			}
+		}
+	}
+	if len(rec.Locals) == len(locals) {
+		for i := range locals {
+			on, ot := split(rec.Locals[i])
+			cn, ct := split(locals[i])
+			if on != cn && ot == ct && !current[on] {
+				a := allocs[i]
+				if a.Heap {
+					if g.heapLocals == nil {
+						g.heapLocals = map[string][]*ssa.Alloc{}
+					}
+					g.heapLocals[on] = append(g.heapLocals[on], a)
+				} else {
+					g.cellName[on] = append(g.cellName[on], a)
+				}
+				g.warnings = append(g.warnings, fmt.Sprintf("%s: variable %s was renamed to %s (matched by position)", g.key, on, cn))
+			}
+		}
+	}
 }
